@@ -2,6 +2,7 @@ import SiaProofs.Lemmas.LedgerC08V1
 import SiaProofs.Lemmas.LedgerC08V2
 import SiaProofs.Lemmas.LedgerC02Block
 import SiaProofs.Lemmas.LedgerC02Commit
+import SiaProofs.Lemmas.LedgerC02Idx
 import SiaProofs.Props.C08
 /-!
 # C02 — no double spend or double resolution (ledger model)
@@ -260,23 +261,21 @@ theorem c02_block_no_repeats (L : Ledger) (b : Block) (pid : Id) (ms : Mid) (h :
 
 -- ================================================================= different blocks
 
-/-- the ids of the diffs of each kind are pairwise distinct (every diff is found through the
-`elements` index of its own id; see the remark at `c02_commit_removes_spent_partial`) -/
+/-- the ids of the diffs of each kind are pairwise distinct -/
 structure DiffIdsUnique (ms : Mid) : Prop where
   sc : (ms.sces.map (·.e.id)).Nodup
   sf : (ms.sfes.map (·.e.id)).Nodup
   fc1 : (ms.fces.map (·.e.id)).Nodup
   fc2 : (ms.v2fces.map (·.e.id)).Nodup
 
-/-- After `commit`, the id of every diff marked spent / resolved is no longer live: the next
-ledger has no siacoin element, siafund element, v1 or v2 contract with that id.
+/-- it follows from the index invariant `MidJ`, which every reachable mid-state satisfies
+(`Lemmas/LedgerC02Idx.lean`) -/
+theorem diffIdsUnique_of_J {ms : Mid} (h : MidJ ms) : DiffIdsUnique ms :=
+  ⟨h.sc.nodup, h.sf.nodup, h.fc1.nodup, h.fc2.nodup⟩
 
-PARTIAL: assumes `DiffIdsUnique ms`.  Full statement: the same for every `ms` reached by
-`midApplyBlock (newMid L) b`; it needs the invariant "the diff stored at index `i` of a slice is
-the one whose id maps to `i` in `elements`", which holds for reachable mid-states as long as ids of
-different element kinds do not collide (ids are hashes in core; in the model they are numbers
-supplied by the harness). -/
-theorem c02_commit_removes_spent_partial (ms : Mid) (bid : Id) (hu : DiffIdsUnique ms) :
+/-- After `commit`, the id of every diff marked spent / resolved is no longer live — for any
+mid-state whose diffs have pairwise distinct ids. -/
+theorem commit_removes_spent_of_unique (ms : Mid) (bid : Id) (hu : DiffIdsUnique ms) :
     (∀ d ∈ ms.sces, d.spent = true → ∀ e ∈ (ms.commit bid).sc, e.id ≠ d.e.id) ∧
     (∀ d ∈ ms.sfes, d.spent = true → ∀ e ∈ (ms.commit bid).sf, e.id ≠ d.e.id) ∧
     (∀ d ∈ ms.fces, d.resolved = true → ∀ e ∈ (ms.commit bid).fc1, e.id ≠ d.e.id) ∧
@@ -305,6 +304,22 @@ theorem c02_commit_removes_spent_partial (ms : Mid) (bid : Id) (hu : DiffIdsUniq
         cases hr : d'.revision <;> simp only [hr] at heq <;> exact heq
       have := eq_of_nodup_map (fun d : Fc2Diff => d.e.id) hu.fc2 hd' hd hid
       subst this; rw [hs'] at hs; cases hs
+
+/-- `c02_commit_removes_spent`: for the mid-state produced by applying a block (`midApplyBlock`,
+i.e. what `applyBlock` commits), the id of every diff marked spent / resolved is not live in the
+committed ledger: no siacoin element, siafund element, v1 or v2 contract carries it. -/
+theorem c02_commit_removes_spent (L : Ledger) (b : Block) (ms : Mid) (bid : Id)
+    (h : midApplyBlock (newMid L) b = .ok ms) :
+    (∀ d ∈ ms.sces, d.spent = true → ∀ e ∈ (ms.commit bid).sc, e.id ≠ d.e.id) ∧
+    (∀ d ∈ ms.sfes, d.spent = true → ∀ e ∈ (ms.commit bid).sf, e.id ≠ d.e.id) ∧
+    (∀ d ∈ ms.fces, d.resolved = true → ∀ e ∈ (ms.commit bid).fc1, e.id ≠ d.e.id) ∧
+    (∀ d ∈ ms.v2fces, d.resolution.isSome = true → ∀ e ∈ (ms.commit bid).fc2, e.id ≠ d.e.id) :=
+  commit_removes_spent_of_unique ms bid (diffIdsUnique_of_J (midApplyBlock_J h))
+
+/-- the committed ledger never holds two live elements of one kind created or kept by the block's
+diffs under the same id: ids of the block's diffs are pairwise distinct -/
+theorem c02_block_diff_ids_unique (L : Ledger) (b : Block) (pid : Id) (ms : Mid) (h : validateBlock L b pid = .ok ms) :
+    DiffIdsUnique ms := diffIdsUnique_of_J (validateBlock_J h)
 
 /-- If no live element of ledger `L` carries `id` (e.g. it was consumed by an earlier block), then
 * a v2 transaction presenting a non-ephemeral siacoin / siafund element record with that id, or
